@@ -163,14 +163,17 @@ fn eval_arc(cx: f32, cy: f32, r: f32, start: f32, sweep: f32, ctx: u8) -> Result
     }
     if rr > 0.0 {
         let want = sw.abs().min(2.0 * std::f64::consts::PI);
-        let slack = 1e-3 + 4e-7 * (s.abs() + sw.abs()) * 8.0;
+        // the angle covered is exact up to the f32 rounding of the angles involved
+        // (and of the coordinates: a point at distance r from a centre of magnitude c is only known to
+        // the spacing of floats at c, an angle of that over r)
+        let slack = 2e-5 + 4e-7 * (s.abs() + sw.abs()) * 8.0 + 1e-6 * (c.0.abs() + c.1.abs() + rr) / rr;
         if (total.abs() - want).abs() > slack {
             return bad("angle-covered", format!("curve covers {:.6} rad, expected {:.6} (|sweep| clamped to one turn)", total.abs(), want));
         }
         // end point
         let ea = if sw.abs() >= 2.0 * std::f64::consts::PI { s } else { s + sw };
         let ep = (c.0 + rr * ea.cos(), c.1 + rr * ea.sin());
-        if dist(cur, ep) > tol_r.max(1e-3 * rr) + rr * slack {
+        if dist(cur, ep) > 4e-6 * (c.0.abs() + c.1.abs() + rr) + rr * slack + 1e-30 {
             return bad("end-point", format!("curve ends at {:?}, expected {:?}", cur, ep));
         }
         // very small sweeps: "exactly the angles from start to start+sweep" is still resolved by the
@@ -272,8 +275,9 @@ impl Check for C20 {
         let q = false;
         run.rule("every parameter tuple of the stated grids is passed to PathBuilder::rect / arc and every op string up to the depth bound to Path::transform under 11 transforms; emitted ops are evaluated in f64 against the documented geometry; non-trivial = arcs with r > 0 and sweep != 0, transforms other than the identity");
         // rect
-        let xs = [-3.0f32, 0., 2.5];
-        let ws = [-2.0f32, 0., 1., 7.5];
+        // (0.1, 0.3, 1e7: sums that are rounded - every corner is still built from the arguments)
+        let xs = [-3.0f32, 0., 2.5, 0.1, 0.3];
+        let ws = [-2.0f32, 0., 1., 7.5, 100.0, 1e7];
         run.bound("rect", format!("{} rect parameter tuples x 6 builder contexts (empty, open subpath elsewhere, LineTo / QuadTo ending on the first corner, MoveTo to it, closed subpath that started on it)", xs.len() * xs.len() * ws.len() * ws.len()));
         run.seq(|l| {
             for &x in &xs {
@@ -308,7 +312,7 @@ impl Check for C20 {
         let nstart = if deep { 192 } else { 48 };
         let starts: Vec<f32> = (0..nstart).map(|i| -2.5 * pi + (i as f32) * (5.5 * pi / nstart as f32) + if i % 3 == 0 { 0.0 } else { 0.013 * i as f32 }).collect();
         let mut sweeps: Vec<f32> = vec![0.0];
-        for s in [1e-3, pi / 4., pi / 2., pi, 1.5 * pi, 2. * pi, 2. * pi + 1e-3, 7., 100.] {
+        for s in [1e-3, pi / 4., pi / 2., pi, 1.5 * pi, 2. * pi, 2. * pi + 1e-3, 7., 100., 2. * pi - 5e-4, 2. * pi - 1e-4, 2. * pi - 2e-3] {
             sweeps.push(s);
             sweeps.push(-s);
         }
